@@ -420,4 +420,43 @@ pub fn generate(seed: u64, tier: &str, sink: &mut Sink) {
             oracle: o,
         });
     }
+    extreme_timeouts(sink);
+}
+
+/// The connect timeout is a plain `Duration`: "no connect timeout, let the overall timeout govern" is said with
+/// `Duration::MAX` (or any value of about i64::MAX seconds and up). With and without an overall timeout the
+/// outcome is that of the addresses: an address accepts — the call succeeds on it; none does — an attempt's
+/// error (seed C17-seed11: `Instant::now() + connect_timeout`, evaluated when the request also has an overall
+/// timeout, panics on such a value).
+fn extreme_timeouts(sink: &mut Sink) {
+    let cts: [(&str, Duration); 4] = [("Duration::MAX", Duration::MAX), ("u64::MAX s", Duration::from_secs(u64::MAX)), ("i64::MAX s", Duration::from_secs(i64::MAX as u64)), ("2^40 s", Duration::from_secs(1 << 40))];
+    let shapes: [(&str, &[(bool, char)]); 4] = [("one-accepts", &[(false, 'a')]), ("two-accept", &[(true, 'a'), (false, 'a')]), ("refused-then-accepts", &[(false, 'r'), (false, 'a')]), ("all-refuse", &[(false, 'r'), (true, 'r')])];
+    for (ci, (cname, ct)) in cts.iter().enumerate() {
+        for (si, (sname, shape)) in shapes.iter().enumerate() {
+            for deadline in [None, Some(2000u64)] {
+                let hits = Arc::new(Mutex::new(vec![]));
+                let addrs: Vec<SocketAddr> = shape.iter().enumerate().map(|(i, (v6, b))| if *b == 'a' { acceptor(*v6, i, hits.clone()) } else { closed_port(*v6) }).collect();
+                let host = format!("extreme-{}-{}.test", ci, si);
+                attohttpc::verif_hooks::set_resolver_override(&host, addrs.clone());
+                let mut rb = attohttpc::get(format!("http://{}:1/", host)).connect_timeout(*ct).read_timeout(Duration::from_secs(2)).follow_redirects(false);
+                if let Some(d) = deadline {
+                    rb = rb.timeout(Duration::from_millis(d));
+                }
+                let t0 = Instant::now();
+                let res = std::panic::catch_unwind(std::panic::AssertUnwindSafe(move || rb.send().map(|r| r.headers().get("x-listener").and_then(|v| v.to_str().ok()).and_then(|s| s.parse::<usize>().ok()))));
+                let el = t0.elapsed().as_millis() as u64;
+                attohttpc::verif_hooks::clear_resolver_overrides();
+                let any_accept = shape.iter().any(|a| a.1 == 'a');
+                let what = format!("connect_timeout {} / timeout {:?} ms / {}", cname, deadline, sname);
+                let o = match res {
+                    Err(_) => Err(("panic-extreme-connect-timeout".to_string(), format!("{}: send() panicked", what))),
+                    Ok(Ok(id)) if any_accept && id.map_or(false, |i| shape.get(i).map_or(false, |a| a.1 == 'a')) && el < 1500 => Ok(()),
+                    Ok(Ok(id)) => Err(("extreme-connect-timeout-wrong-success".to_string(), format!("{}: answered by listener {:?} after {} ms", what, id, el))),
+                    Ok(Err(_)) if !any_accept && el < 1500 => Ok(()),
+                    Ok(Err(e)) => Err(("extreme-connect-timeout-failure".to_string(), format!("{}: {:?} after {} ms", what, e.kind(), el))),
+                };
+                sink.push(Case { tags: vec!["kind=extreme-connect-timeout".into(), format!("ct={}", cname), format!("shape={}", sname), format!("deadline={}", deadline.map(|d| d.to_string()).unwrap_or("none".into()))], op: format!("nop extreme {} {}", ci, si), impl_line: "nop".into(), oracle: o });
+            }
+        }
+    }
 }
